@@ -206,7 +206,7 @@ Example C20_ex_elements :
   elements_of W (PSeq CList [PStr "a"; PStr "b:2"]) =
     Ok (ESeq CList [EFun KVector "a" W; ESeq CTuple [EFun KVector "b0" W; EFun KVector "b1" W]]) /\
   elements_of sp (PSeq CList [PStr "a,b"; PStr "c"; PStr "d:2"]) =
-    Ok (ESeq CList [ESeq CTuple [EFun KScalar "a" V; EFun KScalar "b" V]; ESeq CTuple [EFun KVector "c" W];
+    Ok (ESeq CList [ESeq CTuple [EFun KScalar "a" V; EFun KScalar "b" V]; EFun KVector "c" W;
                     ESeq CTuple [EFun KScalar "d0" X; EFun KScalar "d1" X]]).
 Proof. vm_compute. repeat split. Qed.
 
